@@ -190,7 +190,7 @@ public:
   template <typename OtherNumericType>
   constexpr PlanarDirection<NumericType>& operator=(
       const PlanarDirection<OtherNumericType>& other) {
-    this->value = static_cast<PlanarVector<NumericType>>(other.Value());
+    Set(static_cast<PlanarVector<NumericType>>(other.Value()));
     return *this;
   }
 
